@@ -1,6 +1,8 @@
 package rules
 
 import (
+	"go/ast"
+	goparser "go/parser"
 	"regexp"
 	"os"
 	"go/token"
@@ -170,6 +172,73 @@ func c01Panics(c *Ctx) {
 		}
 		return ""
 	}
+	// sharedAudit: the expression is audited for F and still occurs there; fn is called from F only, and every name of
+	// the expression that is a parameter of fn is bound, at every call, to F's variable of the same name (the repeated
+	// expression was folded into a helper, e.g. the four "invalid number" exits of readNumber)
+	sharedAudit := func(fn *ssa.Function, expr string) string {
+		ex, err := goparser.ParseExpr(expr)
+		if err != nil {
+			return ""
+		}
+		names := map[string]bool{}
+		ast.Inspect(ex, func(n ast.Node) bool {
+			if id, ok := n.(*ast.Ident); ok {
+				names[id.Name] = true
+			}
+			return true
+		})
+		for k, why := range boundsAudit {
+			i := strings.LastIndex(k, "|")
+			if i < 0 || k[i+1:] != expr {
+				continue
+			}
+			from := byName[k[:i]]
+			if from == nil || from == fn || !present[k[:i]][expr] {
+				continue
+			}
+			node := p.CallGraph().Nodes[fn]
+			if node == nil || len(node.In) == 0 {
+				continue
+			}
+			ok := true
+			for _, e := range node.In {
+				if e.Caller.Func != from || e.Site == nil {
+					ok = false
+					break
+				}
+				args := e.Site.Common().Args
+				off := len(args) - len(fn.Params)
+				for j, par := range fn.Params {
+					if fn.Signature.Recv() != nil && j == 0 {
+						continue // the receiver: the same object when the caller passes its own
+					}
+					if !names[par.Name()] {
+						continue
+					}
+					// the argument in the source must be the identifier of that name
+					ce, _ := callExprAt(from, e.Site.Pos())
+					aj := j + off
+					if fn.Signature.Recv() != nil {
+						aj = j - 1
+					}
+					if ce == nil || aj < 0 || aj >= len(ce.Args) {
+						ok = false
+						break
+					}
+					if id, isID := ce.Args[aj].(*ast.Ident); !isID || id.Name != par.Name() {
+						ok = false
+					}
+				}
+				if fn.Signature.Recv() != nil && len(args) > 0 && len(from.Params) > 0 && args[0] != ssa.Value(from.Params[0]) {
+					ok = false
+				}
+			}
+			if ok {
+				return "audited in " + k[:i] + ", which still contains it and is the only caller of this helper, passing its own variables of the same names: " + why
+			}
+		}
+		return ""
+	}
 	for _, fn := range fns {
 		if !core.InPkgs(fn, boundsPkgs...) {
 			continue
@@ -202,6 +271,9 @@ func c01Panics(c *Ctx) {
 			case movedAudit(fn, o.expr) != "":
 				audited++
 				r.OK("bounds", key, p.Pos(o.pos), movedAudit(fn, o.expr))
+			case sharedAudit(fn, o.expr) != "":
+				audited++
+				r.OK("bounds", key, p.Pos(o.pos), sharedAudit(fn, o.expr))
 			default:
 				r.Violate("bounds", key, p.Pos(o.pos), "index/slice expression without a recognised bounds guard ("+o.reason+") and not in the audited table")
 			}
@@ -364,4 +436,20 @@ func bareAudit(key string) string {
 		}
 	}
 	return ""
+}
+
+// callExprAt: the call expression of fn's source whose opening parenthesis is at pos.
+func callExprAt(fn *ssa.Function, pos token.Pos) (*ast.CallExpr, bool) {
+	syn := fn.Syntax()
+	if syn == nil {
+		return nil, false
+	}
+	var found *ast.CallExpr
+	ast.Inspect(syn, func(n ast.Node) bool {
+		if ce, ok := n.(*ast.CallExpr); ok && ce.Lparen == pos {
+			found = ce
+		}
+		return found == nil
+	})
+	return found, found != nil
 }
